@@ -3,8 +3,11 @@ import EosProofs.Lemmas.CalcBasic
 /-! The settled message-level state is the specification: under `derivedDyn u cfg` (everything the source
 knows is loaded, exactly the selected effects run, every running projectable effect is applied to the
 item's target) the message-level calculation `gatherD` / `valueOfD` / `evalD` of `EosModel/WorldMicro.lean`
-agrees with the from-scratch `World.gather` / `World.valueOf`.  Items are identified by id (`UniqueIds`);
-fleet boosts are outside the message-level layer (universe without buff effects). -/
+agrees with the from-scratch `World.gather` / `World.valueOf`.  Items are identified by id (`UniqueIds`).
+`derivedDyn` registers no fleet-boost payload (no recorded boost targets, no warfare-buff modifiers), so the
+comparison with the specification is for universes without buff effects (`hb`); the list-level facts
+(`specsOn_derived_perm`, …) need no such hypothesis.  Settled states *with* fleet boosts:
+`Lemmas/MicroBuff.lean`, `Lemmas/MicroBuffTable.lean`. -/
 namespace Eos.Micro
 open Eos.World Eos.Calc
 
